@@ -31,23 +31,24 @@ func repoDir() string {
 	return "/repo"
 }
 
-// stringLitsOf returns the distinct string literals in the body of top-level function fn of file, in source order.
-func stringLitsOf(file, fn string) ([]string, error) {
-	fset := token.NewFileSet()
-	f, err := parser.ParseFile(fset, file, nil, 0)
+// packageStringLits returns the distinct string literals of the non-test Go files of the root package directory.
+func packageStringLits(dir string) ([]string, error) {
+	files, err := filepath.Glob(filepath.Join(dir, "*.go"))
 	if err != nil {
 		return nil, err
 	}
+	fset := token.NewFileSet()
+	seen := map[string]bool{}
 	var out []string
-	found := false
-	for _, d := range f.Decls {
-		fd, ok := d.(*ast.FuncDecl)
-		if !ok || fd.Recv != nil || fd.Name.Name != fn || fd.Body == nil {
+	for _, file := range files {
+		if strings.HasSuffix(file, "_test.go") {
 			continue
 		}
-		found = true
-		seen := map[string]bool{}
-		ast.Inspect(fd.Body, func(n ast.Node) bool {
+		f, err := parser.ParseFile(fset, file, nil, 0)
+		if err != nil {
+			return nil, err
+		}
+		ast.Inspect(f, func(n ast.Node) bool {
 			if bl, ok := n.(*ast.BasicLit); ok && bl.Kind == token.STRING {
 				if v, err := strconv.Unquote(bl.Value); err == nil && !seen[v] {
 					seen[v] = true
@@ -57,17 +58,15 @@ func stringLitsOf(file, fn string) ([]string, error) {
 			return true
 		})
 	}
-	if !found {
-		return nil, fmt.Errorf("function %s not found in %s", fn, file)
-	}
+	sort.Strings(out)
 	return out, nil
 }
 
-// the core (read-only) resource names and the wildcard grant are string literals inside IsSystemReadOnly and
-// Authorize, not constants: they are read from the source text of the tree the binary was compiled from, and the
-// compiled function is asked to confirm them.
+// The core (read-only) resource names and the wildcard grant are string literals in the code, not constants.
+// Candidates are all string literals of the package source the binary was compiled from; which of them ARE core
+// names / the wildcard is decided by asking the compiled functions, so moving the literals around does not matter.
 func coreNames() ([]string, error) {
-	lits, err := stringLitsOf(filepath.Join(repoDir(), "rbac.go"), "IsSystemReadOnly")
+	lits, err := packageStringLits(repoDir())
 	if err != nil {
 		return nil, err
 	}
@@ -77,17 +76,26 @@ func coreNames() ([]string, error) {
 			core = append(core, l)
 		}
 	}
+	// source order of the two known names first, so that the generated file is stable
+	sort.SliceStable(core, func(i, j int) bool { return core[i] == "SOP" && core[j] != "SOP" })
 	return core, nil
 }
 
 func wildcards() ([]string, error) {
-	lits, err := stringLitsOf(filepath.Join(repoDir(), "rbac.go"), "Authorize")
+	lits, err := packageStringLits(repoDir())
 	if err != nil {
 		return nil, err
 	}
+	const probe = "verif-probe-action"
+	ctx := sop.ContextWithAuth(context.Background(), sop.AuthContext{UserID: "verif-u", Roles: []string{"verif-r"}})
 	var w []string
 	for _, l := range lits {
-		if l != "" {
+		if l == probe {
+			continue
+		}
+		byUser := sop.Authorize(ctx, sop.ResourceAccess{Visibility: sop.VisibilityPrivate, Users: map[string][]string{"verif-u": {l}}}, probe)
+		byRole := sop.Authorize(ctx, sop.ResourceAccess{Visibility: sop.VisibilityPrivate, Roles: map[string][]string{"verif-r": {l}}}, probe)
+		if byUser || byRole {
 			w = append(w, l)
 		}
 	}
@@ -102,7 +110,7 @@ func facts() []hx.Fact {
 	}
 	wc, err := wildcards()
 	if err != nil || len(wc) != 1 {
-		fmt.Fprintln(os.Stderr, "facts: expected exactly one non-empty string literal (the wildcard grant) in sop.Authorize, got", wc, err)
+		fmt.Fprintln(os.Stderr, "facts: expected exactly one string literal of the package to act as a wildcard grant, got", wc, err)
 		os.Exit(3)
 	}
 	return []hx.Fact{
